@@ -388,7 +388,8 @@ pub fn pairs(args: &[String]) -> i32 {
     let draws = arg_u64(args, "--draws", 400);
     let mut out = Out::create(arg_req(args, "--out"));
     for form in FORMS {
-        for n in [65usize, 130, 193] {
+        // lengths at, just below and just above multiples of 64 (a decision source handed out in words)
+        for n in [64usize, 65, 128, 130, 63, 193, 192] {
             let mut rng = run_rng(seed, 0x9A1, n as u64);
             let (p1, p2): (Vec<i64>, Vec<i64>) = if form.starts_with("bits") {
                 (vec![0; n], vec![1; n])
